@@ -255,3 +255,346 @@ func (a vByteStringsArr) MarshalLogArray(enc ArrayEncoder) error {
 	}
 	return nil
 }
+
+// Every numeric Add*/Append* method of the encoder, each with its argument symbolic over its whole type:
+// the number that comes out is the number that went in (value of the digit token), for object members and
+// array elements alike. MapObjectEncoder and the console encoder's slice encoder record the same values.
+type vNumCall struct {
+	sel   int
+	arr   bool
+	want  *vExp
+	wantV interface{}
+}
+
+func (c *vNumCall) MarshalLogObject(enc ObjectEncoder) error {
+	if c.arr {
+		return enc.AddArray("a", c)
+	}
+	c.do(enc, nil)
+	return nil
+}
+
+func (c *vNumCall) MarshalLogArray(enc ArrayEncoder) error {
+	c.do(nil, enc)
+	return nil
+}
+
+func (c *vNumCall) do(o ObjectEncoder, a ArrayEncoder) {
+	switch c.sel {
+	case 0:
+		v := vrt.Int("n.int")
+		c.want, c.wantV = &vExp{kind: xInt, i: int64(v)}, v
+		if a != nil {
+			a.AppendInt(v)
+		} else {
+			o.AddInt("k", v)
+		}
+	case 1:
+		v := vrt.Int64("n.i64")
+		c.want, c.wantV = &vExp{kind: xInt, i: v}, v
+		if a != nil {
+			a.AppendInt64(v)
+		} else {
+			o.AddInt64("k", v)
+		}
+	case 2:
+		v := vrt.Int32("n.i32")
+		c.want, c.wantV = &vExp{kind: xInt, i: int64(v)}, v
+		if a != nil {
+			a.AppendInt32(v)
+		} else {
+			o.AddInt32("k", v)
+		}
+	case 3:
+		v := vrt.Int16("n.i16")
+		c.want, c.wantV = &vExp{kind: xInt, i: int64(v)}, v
+		if a != nil {
+			a.AppendInt16(v)
+		} else {
+			o.AddInt16("k", v)
+		}
+	case 4:
+		v := vrt.Int8("n.i8")
+		c.want, c.wantV = &vExp{kind: xInt, i: int64(v)}, v
+		if a != nil {
+			a.AppendInt8(v)
+		} else {
+			o.AddInt8("k", v)
+		}
+	case 5:
+		v := vrt.Uint("n.uint")
+		c.want, c.wantV = &vExp{kind: xUint, u: uint64(v)}, v
+		if a != nil {
+			a.AppendUint(v)
+		} else {
+			o.AddUint("k", v)
+		}
+	case 6:
+		v := vrt.Uint64("n.u64")
+		c.want, c.wantV = &vExp{kind: xUint, u: v}, v
+		if a != nil {
+			a.AppendUint64(v)
+		} else {
+			o.AddUint64("k", v)
+		}
+	case 7:
+		v := vrt.Uint32("n.u32")
+		c.want, c.wantV = &vExp{kind: xUint, u: uint64(v)}, v
+		if a != nil {
+			a.AppendUint32(v)
+		} else {
+			o.AddUint32("k", v)
+		}
+	case 8:
+		v := vrt.Uint16("n.u16")
+		c.want, c.wantV = &vExp{kind: xUint, u: uint64(v)}, v
+		if a != nil {
+			a.AppendUint16(v)
+		} else {
+			o.AddUint16("k", v)
+		}
+	case 9:
+		v := vrt.Uint8("n.u8")
+		c.want, c.wantV = &vExp{kind: xUint, u: uint64(v)}, v
+		if a != nil {
+			a.AppendUint8(v)
+		} else {
+			o.AddUint8("k", v)
+		}
+	case 10:
+		v := vrt.Uintptr("n.uptr")
+		c.want, c.wantV = &vExp{kind: xUint, u: uint64(v)}, v
+		if a != nil {
+			a.AppendUintptr(v)
+		} else {
+			o.AddUintptr("k", v)
+		}
+	case 11:
+		v := vrt.Float64("n.f64")
+		c.want, c.wantV = &vExp{kind: xF64, f64: v}, v
+		if a != nil {
+			a.AppendFloat64(v)
+		} else {
+			o.AddFloat64("k", v)
+		}
+	case 12:
+		v := vrt.Float32("n.f32")
+		c.want, c.wantV = &vExp{kind: xF32, f32: v}, v
+		if a != nil {
+			a.AppendFloat32(v)
+		} else {
+			o.AddFloat32("k", v)
+		}
+	case 13:
+		v := vrt.Bool("n.b")
+		c.want, c.wantV = &vExp{kind: xBool, b: v}, v
+		if a != nil {
+			a.AppendBool(v)
+		} else {
+			o.AddBool("k", v)
+		}
+	}
+}
+
+const vNumKinds = 14
+
+//verif: prop=C02 bounds="each of the 14 scalar Add* methods and the 14 Append* methods of the JSON encoder (int, int8..64, uint, uint8..64, uintptr, float32/64, bool) with its argument symbolic over its whole type, as an object member and as an array element, in compact and spaced (console context) mode: the emitted number/bool is the argument (token value); the same call recorded by MapObjectEncoder / the slice encoder yields the same Go value"
+func VC02Numeric() {
+	call := &vNumCall{sel: vrt.Choice("method", vNumKinds), arr: vrt.Choice("array", 2) == 1}
+	spaced := vrt.Choice("spaced", 2) == 1
+	enc := newJSONEncoder(EncoderConfig{LineEnding: "\n"}, spaced)
+	buf, err := enc.EncodeEntry(Entry{}, []Field{{Key: "o", Type: ObjectMarshalerType, Interface: call}})
+	vrt.Assert("encode-returns-nil", err == nil)
+	v, perr := vrt.ParseJSONObjectLine(buf.Bytes(), "\n", spaced)
+	if perr != "" {
+		vrt.Tag("parse=" + perr)
+		vrt.Fail("one-valid-json-object-then-line-ending")
+		return
+	}
+	got := v.Get("o")
+	if got == nil {
+		vrt.Fail("object-present")
+		return
+	}
+	if call.arr {
+		a := got.Get("a")
+		if a == nil || a.Kind != vrt.JArr || len(a.Arr) != 1 {
+			vrt.Fail("array-with-one-element")
+			return
+		}
+		vMatch("$.o.a[0]", a.Arr[0], call.want)
+	} else {
+		k := got.Get("k")
+		if k == nil {
+			vrt.Fail("member-present")
+			return
+		}
+		vMatch("$.o.k", k, call.want)
+	}
+	// the in-memory encoders record the very same Go value
+	rec := &vNumCall{sel: call.sel, arr: call.arr}
+	_ = rec
+	m := NewMapObjectEncoder()
+	call2 := &vNumReplay{call}
+	_ = m.AddObject("o", call2)
+	inner, _ := m.Fields["o"].(map[string]interface{})
+	var gotV interface{}
+	if call.arr {
+		if arr, ok := inner["a"].([]interface{}); ok && len(arr) == 1 {
+			gotV = arr[0]
+		}
+	} else {
+		gotV = inner["k"]
+	}
+	vrt.Assert("map-encoder-records-the-same-value", vSameScalar(gotV, call.wantV))
+	vrt.Cover("done")
+}
+
+// vNumReplay replays the same call with the value already drawn (inputs may be drawn only once).
+type vNumReplay struct{ c *vNumCall }
+
+func (r *vNumReplay) MarshalLogObject(enc ObjectEncoder) error {
+	if r.c.arr {
+		return enc.AddArray("a", r)
+	}
+	r.put(enc, nil)
+	return nil
+}
+func (r *vNumReplay) MarshalLogArray(enc ArrayEncoder) error { r.put(nil, enc); return nil }
+func (r *vNumReplay) put(o ObjectEncoder, a ArrayEncoder) {
+	switch v := r.c.wantV.(type) {
+	case int:
+		if a != nil {
+			a.AppendInt(v)
+		} else {
+			o.AddInt("k", v)
+		}
+	case int64:
+		if a != nil {
+			a.AppendInt64(v)
+		} else {
+			o.AddInt64("k", v)
+		}
+	case int32:
+		if a != nil {
+			a.AppendInt32(v)
+		} else {
+			o.AddInt32("k", v)
+		}
+	case int16:
+		if a != nil {
+			a.AppendInt16(v)
+		} else {
+			o.AddInt16("k", v)
+		}
+	case int8:
+		if a != nil {
+			a.AppendInt8(v)
+		} else {
+			o.AddInt8("k", v)
+		}
+	case uint:
+		if a != nil {
+			a.AppendUint(v)
+		} else {
+			o.AddUint("k", v)
+		}
+	case uint64:
+		if a != nil {
+			a.AppendUint64(v)
+		} else {
+			o.AddUint64("k", v)
+		}
+	case uint32:
+		if a != nil {
+			a.AppendUint32(v)
+		} else {
+			o.AddUint32("k", v)
+		}
+	case uint16:
+		if a != nil {
+			a.AppendUint16(v)
+		} else {
+			o.AddUint16("k", v)
+		}
+	case uint8:
+		if a != nil {
+			a.AppendUint8(v)
+		} else {
+			o.AddUint8("k", v)
+		}
+	case uintptr:
+		if a != nil {
+			a.AppendUintptr(v)
+		} else {
+			o.AddUintptr("k", v)
+		}
+	case float64:
+		if a != nil {
+			a.AppendFloat64(v)
+		} else {
+			o.AddFloat64("k", v)
+		}
+	case float32:
+		if a != nil {
+			a.AppendFloat32(v)
+		} else {
+			o.AddFloat32("k", v)
+		}
+	case bool:
+		if a != nil {
+			a.AppendBool(v)
+		} else {
+			o.AddBool("k", v)
+		}
+	}
+}
+
+// vSameScalar: same dynamic type and same value (floats by bits).
+func vSameScalar(a, b interface{}) bool {
+	switch x := b.(type) {
+	case int:
+		y, ok := a.(int)
+		return ok && x == y
+	case int64:
+		y, ok := a.(int64)
+		return ok && x == y
+	case int32:
+		y, ok := a.(int32)
+		return ok && x == y
+	case int16:
+		y, ok := a.(int16)
+		return ok && x == y
+	case int8:
+		y, ok := a.(int8)
+		return ok && x == y
+	case uint:
+		y, ok := a.(uint)
+		return ok && x == y
+	case uint64:
+		y, ok := a.(uint64)
+		return ok && x == y
+	case uint32:
+		y, ok := a.(uint32)
+		return ok && x == y
+	case uint16:
+		y, ok := a.(uint16)
+		return ok && x == y
+	case uint8:
+		y, ok := a.(uint8)
+		return ok && x == y
+	case uintptr:
+		y, ok := a.(uintptr)
+		return ok && x == y
+	case float64:
+		y, ok := a.(float64)
+		return ok && math.Float64bits(x) == math.Float64bits(y)
+	case float32:
+		y, ok := a.(float32)
+		return ok && math.Float32bits(x) == math.Float32bits(y)
+	case bool:
+		y, ok := a.(bool)
+		return ok && x == y
+	}
+	return false
+}
